@@ -181,6 +181,7 @@ ITEMS = [
          "__call__": {"params": {"index": TList(TOpt(INT))}, "vararg": "index"},
          "to_index": {"params": {"lit": INT}},
          "__getitem__": {"params": {"choices": INT}, "lean": "getitem"},
+         "to_dict": {"params": {}},
      }},
     {"file": VARS, "class": "SingletonVariableGroup", "property": "C11",
      "methods": {
@@ -272,6 +273,7 @@ ITEMS = [
                                     {"lean": "force_complete_mapping_binary", "params": {"f": TObj("BinaryMappingVariables")}}],
          "force_functional_mapping": [{"lean": "force_functional_mapping_unary", "params": {"f": TObj("UnaryMappingVariables")}}],
          "force_surjective_mapping": [{"lean": "force_surjective_mapping_unary", "params": {"f": TObj("UnaryMappingVariables")}}],
+         "force_nondecreasing_mapping": [{"lean": "force_nondecreasing_mapping_unary", "params": {"f": TObj("UnaryMappingVariables")}}],
          "force_injective_mapping": [{"lean": "force_injective_mapping_unary", "params": {"f": TObj("UnaryMappingVariables")}},
                                      {"lean": "force_injective_mapping_binary", "params": {"f": TObj("BinaryMappingVariables")}}],
      }},
@@ -311,6 +313,11 @@ ITEMS = [
     {"file": "cnfgen/families/tseitin.py", "function": "TseitinFormula", "property": "C02",
      "erased_locals": ["description", "parity"],
      "params": {"G": TAbs("AbsGraph"), "charges": TOpt(TList(BOOL)), "formula_class": TEffectClass("Formula")}},
+    {"file": "cnfgen/families/subgraph.py", "function": "non_edges", "property": "C02",
+     "params": {"G": TAbs("AbsGraph")}},
+    {"file": "cnfgen/families/subgraph.py", "function": "CliqueFormula", "property": "C02",
+     "erased_locals": ["description"],
+     "params": {"G": TAbs("AbsGraph"), "k": INT, "symbreak": BOOL, "formula_class": TEffectClass("Formula")}},
     {"file": "cnfgen/families/ramsey.py", "function": "PythagoreanTriples", "property": "C03",
      "params": {"N": INT, "formula_class": TEffectClass("Formula")}},
 ]
